@@ -120,7 +120,7 @@ def decodeDsl (mk : Option Nat → Pdu) (d : Bytes) : Py Pdu :=
 /-- `decode_frame` of the Target (`req = true`, codes D4 00/04/06/08/0A) or of the
 Initiator (`req = false`, D5 01/05/07/09/0B).  `natr`/`npsl` are the fixed sizes
 required by the tuple unpacking of `ATR_*.decode` (14/15) and `PSL_*` (3/1). -/
-def decodeFrame (b106 : Bool) (req : Bool) (frame : Bytes) : Py Pdu :=
+def decodeFrameAux (b106 : Bool) (req : Bool) (frame : Bytes) : Py Pdu :=
   (if b106 then
     match frame with
     | [] => .error .index
@@ -141,12 +141,17 @@ def decodeFrame (b106 : Bool) (req : Bool) (frame : Bytes) : Py Pdu :=
       else if k = 10 then decodeDsl .rls d
       else if k = 0 then
         -- `nfcid3, (did, bs, br, pp[, to]) = data[2:12], data[12:16|17]`
-        if d.length < (if req then 14 else 15) then .error .value else .ok (.atr d)
+        -- `if len(data) < 16 | 17: raise ProtocolError`
+        if d.length < (if req then 14 else 15) then .error .protocol else .ok (.atr d)
       else if k = 4 then
         -- `cls(*data[2:])`: TypeError -> ProtocolError
         if d.length ≠ (if req then 3 else 1) then .error .protocol else .ok (.psl d)
       else .error .protocol
     | _ => .error .transmission
+
+/-- `decode_frame`: `if len(frame) < (2 if brty == '106A' else 1): raise TransmissionError`, then as above -/
+def decodeFrame (b106 : Bool) (req : Bool) (frame : Bytes) : Py Pdu :=
+  if frame.length < (if b106 then 2 else 1) then .error .transmission else decodeFrameAux b106 req frame
 
 /-! ## Activation: information unit sizes -/
 
@@ -422,14 +427,14 @@ def sendDepLoop (pni : Nat) (req : Pdu) : Nat → Air σ → Air σ × Py Pdu
 def sendDep (fuel pni : Nat) (a : Air σ) (req : Pdu) : Air σ × Py Pdu :=
   sendDepLoop P c pni req fuel { a with expired := false }
 
-/-- `for i in range(3): req = RTOX(res.data[0]) ...  else: raise TimeoutError` -/
+/-- `for i in range(3): req = RTOX(res.data) ...  else: raise TimeoutError` -/
 def rtoxLoop (fuel pni : Nat) : Nat → Air σ → Pdu → Air σ × Py Pdu
   | 0, a, _ => (a, .error .timeout)
   | i+1, a, res =>
     match res with
     | .dep _ _ _ _ data =>
       (match data with
-       | [] => (a, .error .index)
+       | [] => (a, .error .protocol)   -- `RTOX(res.data, ...)`: `len(data) == 0` -> ProtocolError
        | rtox :: _ =>
          if ¬ (0 < rtox ∧ rtox < 60) then (a, .error .protocol) else
          match sendDep P c fuel pni a (.dep fTOX 0 c.idid c.inad [rtox]) with
